@@ -8,7 +8,7 @@ from .. import cfg as cfgmod
 from ..astutil import alias_map, call_name, expand_alias, is_attr_of
 from ..index import AnalysisError, AnchorVanished, norm, short, walk_local
 from .common import get_cg
-from .c11 import _file_write_sites
+from .c11 import _file_write_sites_ext
 
 LEVEL = "other"
 UNDECIDED = [
@@ -39,10 +39,20 @@ def _record_sites(ctx):
     return out
 
 
-def _written_vars(f) -> Set[str]:
-    """Names passed to a file write in f (directly or as the iterable of a `for piece in name.splitlines()` writer)."""
+def _written_vars(f, _depth: int = 0) -> Set[str]:
+    """Names passed to a file write in f (directly, as the iterable of a `for piece in name.splitlines()` writer, or through
+    a same-class helper that writes its parameter)."""
     out = set()
     aliases = alias_map(f.node)
+    if f.cls is not None and _depth < 2:
+        for n in walk_local(f.node):
+            if isinstance(n, ast.Call) and isinstance(n.func, ast.Attribute) and isinstance(n.func.value, ast.Name) and n.func.value.id == "self":
+                h = f.cls.method(n.func.attr)
+                if h is not None and h is not f:
+                    hv = _written_vars(h, _depth + 1)
+                    for i, a in enumerate(n.args):
+                        if isinstance(a, ast.Name) and i + 1 < len(h.params) and h.params[i + 1] in hv:
+                            out.add(a.id)
     for n in walk_local(f.node):
         if isinstance(n, ast.Call):
             fn = expand_alias(n.func, aliases) if isinstance(n.func, ast.Name) else n.func
@@ -92,7 +102,7 @@ def r15_1(ctx):
                           f"{caller.qualname} renders through {f.qualname}, which records the segments, but does not write the result to Console.file (it is returned/kept): text that never reached the file appears in export_text()/export_html()")
         else:
             # layout B: recording next to the write
-            writes = [c for ff, c, w in _file_write_sites(ctx) if ff is f and w.endswith(".write")]
+            writes = [c for ff, c, w in _file_write_sites_ext(ctx) if ff is f and w.endswith(".write")]
             renders = [c for c in walk_local(f.node) if isinstance(c, ast.Call) and norm(c.func).endswith("._render_buffer")]
             same = [c for c in renders if c.args and norm(c.args[0]) == norm(arg)]
             ctx.check(bool(same) and bool(writes), f.fq, short(n), where, f"records `{norm(arg)}`, the very snapshot that is rendered and written",
